@@ -49,7 +49,12 @@ FINISH = dict(
          "unreadable = garbage, byte flips, mode 000 as uid nobody, EIO. B: histories (catalogue + "
          "random) over {contacts, key type, both, binding add/remove/change, restart, renew on a "
          "certificate of endpoint A or B, CA forgets} on 1..2 certificates / 1..2 endpoints (two mock "
-         "CAs); every renewal judged by Spec.C11.holds on the CA's request log and table. non-trivial "
+         "CAs); every renewal judged by Spec.C11.holds on the CA's request log and table; also: the key_type line "
+         "absent (= the documented default) or spelt differently, the signature_algorithm line alone added/removed, "
+         "the removed binding put back / only its algorithm changed, an endpoint leaving the configuration and "
+         "coming back (a URL counts as stored when the file OR the harness's memory says so), CAs that shape "
+         "account objects like Boulder and send type-only problem documents, scripted faults (refused / lost "
+         "newAccount, endless accountDoesNotExist) on the re-registration path followed by another attempt. non-trivial "
          "(A) = at least one endpoint or superseded key; (B) = a renewal preceded by an edit or amnesia. "
          "M (py/ext/accountmulti.py): one account with 2..3 endpoints (one mock CA each) held in one probe process; "
          "histories (catalogue + random, 3..8 steps) of edits / restarts / amnesia / synchronisations of one named "
@@ -71,8 +76,23 @@ TIMES = [None, None, {"secs": "0", "nanos": 0}, {"secs": "1", "nanos": 999999999
 WORKERS = 8
 
 
+DEFAULT_KT = "ecdsa_p256"     # acmed.toml(5): key_type of an account, <default>
+
+
 def norm_kt(s):
-    return (s or "").lower().replace("-", "_")
+    """The key type a configured value designates: absent = the documented default; case and -/_ do not matter."""
+    return (s or DEFAULT_KT).lower().replace("-", "_")
+
+
+def spell_kt(rng, kt):
+    """One of the spellings the configuration accepts for key type `kt` (None = no key_type line at all)."""
+    forms = [kt, kt, kt.replace("_", "-"), kt.upper(), kt.replace("_", "-").upper()]
+    if kt == DEFAULT_KT:
+        forms += [None, None]
+    return rng.choice(forms)
+
+
+ALG_OF = {"ecdsa_p256": "ES256", "ecdsa_p384": "ES384", "ecdsa_p521": "ES512", "ed25519": "Ed25519", "ed448": "Ed448"}
 
 
 def hx(s):
@@ -287,7 +307,9 @@ def check_shapes(ctx, shapes):
 # part A: damaged files through the real start-up path
 
 def account_cfg(name, contacts, key_type, eab):
-    acc = {"name": name, "contacts": [{"mailto": v} for _, v in contacts], "key_type": key_type}
+    acc = {"name": name, "contacts": [{"mailto": v} for _, v in contacts]}
+    if key_type is not None:
+        acc["key_type"] = key_type
     if eab:
         acc["external_account"] = {"identifier": eab["identifier"], "key": b64u(bytes.fromhex(eab["key_hex"])),
                                    "signature_algorithm": eab["alg"]}
@@ -555,30 +577,55 @@ def other_of(cur, pool, rng):
 
 def gen_history(rng, max_len, key_pool):
     layout = rng.choice(["1c1e", "1c1e", "2c2e", "2c2e", "2c1e"])
-    certs = [c for c, _ in LAYOUTS[layout]]
-    eps = sorted(set(e for _, e in LAYOUTS[layout]))
     init = {"contacts": rng.choice(B_CONTACTS), "key_type": rng.choice(key_pool),
             "eab": gen_eab(rng) if rng.random() < 0.2 else None}
     cur = copy.deepcopy(init)
+    init["key_type"] = spell_kt(rng, init["key_type"]) if rng.random() < 0.3 else init["key_type"]
+    last_eab = cur["eab"]
     n = rng.randint(2, max_len)
     steps = []
+    now = layout                      # the layout in force (an endpoint can leave the configuration and come back)
     for i in range(n):
+        certs = [c for c, _ in LAYOUTS[now]]
+        eps = sorted(set(e for _, e in LAYOUTS[now]))
         if i == n - 1 or (i == 0 and rng.random() < 0.8):
             kind = "renew"
         else:
-            kind = rng.choice(["contacts", "key", "both", "eab", "restart", "restart", "renew", "renew", "forget"])
+            kind = rng.choice(["contacts", "key", "both", "eab", "restart", "restart", "renew", "renew", "forget",
+                               "keyspell", "alg", "layout"])
+        if kind == "layout" and layout != "2c2e":
+            kind = "renew"
         if kind == "contacts":
             cur["contacts"] = other_of(cur["contacts"], B_CONTACTS, rng)
             steps.append({"do": "contacts", "value": cur["contacts"]})
         elif kind == "key":
             cur["key_type"] = other_of(cur["key_type"], key_pool, rng)
-            steps.append({"do": "key", "value": cur["key_type"], "explicit_alg": rng.random() < 0.3})
+            steps.append({"do": "key", "value": spell_kt(rng, cur["key_type"]) if rng.random() < 0.3 else cur["key_type"],
+                          "explicit_alg": rng.random() < 0.3})
+        elif kind == "keyspell":
+            # the SAME key type written differently (or, for the default, not at all): nothing to do for the daemon
+            steps.append({"do": "key", "value": spell_kt(rng, cur["key_type"]), "explicit_alg": rng.random() < 0.3})
+        elif kind == "alg":
+            # the signature_algorithm line alone is added or removed (each key type has one algorithm: no change)
+            steps.append({"do": "alg", "explicit": rng.random() < 0.5})
+        elif kind == "layout":
+            now = "1c1e" if now == "2c2e" else "2c2e"
+            steps.append({"do": "layout", "value": now})
         elif kind == "both":
             cur["contacts"] = other_of(cur["contacts"], B_CONTACTS, rng)
             cur["key_type"] = other_of(cur["key_type"], key_pool, rng)
             steps.append({"do": "both", "contacts": cur["contacts"], "key": cur["key_type"]})
         elif kind == "eab":
-            cur["eab"] = None if (cur["eab"] and rng.random() < 0.5) else gen_eab(rng)
+            r = rng.random()
+            if cur["eab"] and r < 0.4:
+                cur["eab"] = None
+            elif cur["eab"] and r < 0.55:
+                cur["eab"] = dict(cur["eab"], alg=other_of(cur["eab"]["alg"], ["HS256", "HS384", "HS512"], rng))   # algorithm only
+            elif cur["eab"] is None and last_eab and r < 0.6:
+                cur["eab"] = copy.deepcopy(last_eab)         # the binding that was removed is put back
+            else:
+                cur["eab"] = gen_eab(rng)
+            last_eab = cur["eab"] or last_eab
             steps.append({"do": "eab", "value": cur["eab"]})
         elif kind == "restart":
             steps.append({"do": "restart"})
@@ -586,7 +633,12 @@ def gen_history(rng, max_len, key_pool):
             steps.append({"do": "forget", "ep": rng.choice(eps)})
         else:
             steps.append({"do": "renew", "cert": rng.choice(certs)})
-    return {"layout": layout, "init": init, "steps": steps}
+    h = {"layout": layout, "init": init, "steps": steps}
+    if rng.random() < 0.35:
+        # a CA that shapes its account objects like Boulder: no "contact" member when there is none, members the
+        # client does not know, sometimes no "orders"; problem documents with nothing but a type
+        h["ca_opts"] = {"account_body": "boulder", "orders_url": rng.random() < 0.5, "problem_style": "minimal"}
+    return h
 
 
 def catalogue(thorough):
@@ -620,6 +672,46 @@ def catalogue(thorough):
         # a key-type edit that keeps the signature algorithm (both RSA sizes sign RS256)
         ("key-same-alg", "1c1e", dict(i0, key_type="rsa2048"), [R1, {"do": "key", "value": "rsa4096"}, R1]),
     ]
+    e1b = dict(e1, alg="HS512")
+    L1, L2 = {"do": "layout", "value": "1c1e"}, {"do": "layout", "value": "2c2e"}
+    RS = {"do": "restart"}
+    H += [
+        # key_type absent = the default type; the same type spelt differently: nothing to do
+        ("key-line-absent-is-default", "1c1e", dict(i0, key_type=None),
+         [R1, {"do": "key", "value": "ecdsa_p256"}, R1, {"do": "key", "value": "ECDSA-P256"}, RS, {"do": "key", "value": None}, R1]),
+        ("key-line-removed-means-default", "1c1e", dict(i0, key_type="ecdsa_p384"), [R1, {"do": "key", "value": None}, RS, R1]),
+        ("key-respelt-only", "1c1e", dict(i0, key_type="ed25519"), [R1, {"do": "key", "value": "ED25519"}, R1]),
+        # the signature_algorithm line alone comes and goes
+        ("alg-line-alone", "1c1e", i0, [R1, {"do": "alg", "explicit": True}, RS, R1, {"do": "alg", "explicit": False}, R1]),
+        # an endpoint leaves the configuration while the account file is rewritten, and comes back
+        ("endpoint-removed-and-back", "2c2e", i0, [R1, R2, L1, {"do": "contacts", "value": b}, R1, L2, R2]),
+        ("endpoint-removed-key-changed-and-back", "2c2e", i0, [R1, R2, L1, RS, {"do": "key", "value": "ecdsa_p384"}, R1, L2, RS, R2]),
+        # the binding that was removed is put back unchanged; only its algorithm changes
+        ("eab-remove-then-same", "1c1e", dict(i0, eab=e1), [R1, {"do": "eab", "value": None}, R1, {"do": "eab", "value": e1}, R1]),
+        ("eab-remove+contacts-then-same", "1c1e", dict(i0, eab=e1),
+         [R1, {"do": "eab", "value": None}, {"do": "contacts", "value": b}, R1, {"do": "eab", "value": e1}, R1]),
+        ("eab-alg-only", "1c1e", dict(i0, eab=e1), [R1, {"do": "eab", "value": e1b}, R1]),
+        ("eab+key+contacts", "1c1e", dict(i0, eab=e1), [R1, {"do": "eab", "value": e2}, {"do": "both", "contacts": b, "key": "ecdsa_p384"}, R1]),
+    ]
+    # two contact lists whose "mailto:"+value strings concatenate to the same text are still different lists
+    H += [("contacts-same-concatenation", "1c1e", dict(i0, contacts=["a@example.org", "c@example.org"]),
+           [R1, {"do": "contacts", "value": ["a@example.orgmailto:c@example.org"]}, R1])]
+    # faults on the path forget -> newOrder answered accountDoesNotExist -> re-registration (acme_proto.rs)
+    F = lambda *rules: dict(R1, rules=list(rules))
+    H += [
+        ("reregistration-refused-then-again", "1c1e", i0,
+         [R1, {"do": "forget", "ep": "epA"}, F({"kind": "newAccount", "times": 1, "problem": [403, "unauthorized"]}), R1]),
+        ("reregistration-answer-lost-then-again", "1c1e", i0,
+         [R1, {"do": "forget", "ep": "epA"}, F({"kind": "newAccount", "times": 1, "process": True, "drop": True}), R1]),
+        ("reregistration-refused+key", "1c1e", i0,
+         [R1, {"do": "key", "value": "ecdsa_p384"}, {"do": "forget", "ep": "epA"},
+          F({"kind": "newAccount", "times": 1, "problem": [403, "unauthorized"]}), R1]),
+        ("amnesia-that-does-not-end", "1c1e", i0,
+         [R1, F({"kind": "newOrder", "times": 99, "problem": [400, "accountDoesNotExist"]}), R1]),
+    ]
+    boulder = {"account_body": "boulder", "orders_url": False, "problem_style": "minimal"}
+    HB = [("boulder-no-contacts", "1c1e", dict(i0, contacts=[]), [R1, {"do": "contacts", "value": b}, R1, {"do": "contacts", "value": []}, R1]),
+          ("boulder-forget+key", "2c2e", i0, [R1, R2, {"do": "key", "value": "ecdsa_p384"}, {"do": "forget", "ep": "epA"}, R1, R2])]
     if thorough:
         H += [
             ("double-rollover", "1c1e", i0, [R1, {"do": "key", "value": "ecdsa_p384"}, {"do": "restart"},
@@ -629,7 +721,9 @@ def catalogue(thorough):
             ("rsa4096", "1c1e", i0, [R1, {"do": "key", "value": "rsa4096"}, R1]),
             ("forget-other-endpoint", "2c2e", i0, [R1, R2, {"do": "forget", "ep": "epB"}, {"do": "contacts", "value": b}, R1, R2]),
         ]
-    return [{"label": l, "layout": lay, "init": copy.deepcopy(i), "steps": copy.deepcopy(s)} for l, lay, i, s in H]
+    return [{"label": l, "layout": lay, "init": copy.deepcopy(i), "steps": copy.deepcopy(s)} for l, lay, i, s in H] + \
+        [{"label": l, "layout": lay, "init": copy.deepcopy(i), "steps": copy.deepcopy(s), "ca_opts": dict(boulder)}
+         for l, lay, i, s in HB]
 
 
 def ep_table(fetched):
@@ -652,14 +746,18 @@ class Run:
     def __init__(self, root, hist, tmo=25):
         self.root, self.h, self.tmo = root, hist, tmo
         self.layout = LAYOUTS[hist["layout"]]
-        self.eps = sorted(set(e for _, e in self.layout))
+        # every endpoint the history ever configures has its CA from the start (a `layout` step changes `self.layout`)
+        lays = [hist["layout"]] + [st["value"] for st in hist["steps"] if st["do"] == "layout"]
+        self.eps = sorted(set(e for l in lays for _, e in LAYOUTS[l]))
         self.cfg = copy.deepcopy(hist["init"])
         self.explicit_alg = False
+        self.registered = {e: False for e in self.eps}   # the harness's own memory: a renewal succeeded there, no amnesia since
         self.obs = []           # one per renewal / restart
         self.errors = []        # harness-level problems
         self.synced_contacts = {e: None for e in self.eps}
         self.synced_gen = {e: None for e in self.eps}
         self.bound = {e: None for e in self.eps}
+        self.bound_alg = {e: None for e in self.eps}
         self.gen = 0
         self.edited = False     # something happened since the last renewal (non-triviality)
 
@@ -667,11 +765,11 @@ class Run:
     def write_cfg(self):
         acc = account_cfg(ACC, [["mailto", v] for v in self.cfg["contacts"]], self.cfg["key_type"], self.cfg["eab"])
         if self.explicit_alg:
-            acc["signature_algorithm"] = {"ecdsa_p256": "ES256", "ecdsa_p384": "ES384", "ecdsa_p521": "ES512",
-                                          "ed25519": "Ed25519", "ed448": "Ed448"}.get(self.cfg["key_type"], "RS256")
+            acc["signature_algorithm"] = ALG_OF.get(norm_kt(self.cfg["key_type"]), "RS256")
         certs = [{"name": c, "endpoint": e, "identifiers": [{"dns": IDS[c], "challenge": "http-01"}]}
                  for c, e in self.layout]
-        endpoints = [{"name": e, "url": self.cas[e].base + "/directory", "tos_agreed": True} for e in self.eps]
+        endpoints = [{"name": e, "url": self.cas[e].base + "/directory", "tos_agreed": True}
+                     for e in sorted(set(e for _, e in self.layout))]
         cfg, self.log = flow.make_config(self.root, None, certs, accounts=[acc], endpoints=endpoints,
                                          with_file_hooks=False)
         self.cfg_path = cfggen.write(os.path.join(self.root, "acmed.toml"), cfg)
@@ -768,9 +866,14 @@ class Run:
         rc = d.stop()
         return rc, d.stderr()
 
-    def renew(self, idx, cert):
+    def renew(self, idx, cert, rules=None):
         ep = dict(self.layout)[cert]
         ca = self.cas[ep]
+        # scripted faults of this renewal's CA: {"kind", "times", "problem": [status, type]} | {..., "drop": true}
+        # | {..., "process": true, "drop": true} (processed by the CA, answer lost)
+        for r in rules or []:
+            ans = ca.problem(*r["problem"]) if "problem" in r else {k: r[k] for k in ("process", "drop") if k in r}
+            ca.rules.append({"kind": r["kind"], "times": r.get("times", 1), "label": "fault:" + r["kind"], "answer": ans})
         self.write_cfg()
         self.place_certs(renew=cert)
         pre, _ = self.fetch()
@@ -779,6 +882,8 @@ class Run:
         tables = {e: json.dumps(c.accounts, sort_keys=True, default=str) for e, c in self.cas.items()}
         n0 = len(flow.post_ops(self.log))
         rc, err = self.run_daemon(lambda d: len(flow.post_ops(self.log)) > n0, self.tmo)
+        fired = [e.get("rule") for e in ca.log[marks[ep]:] if e.get("rule")]
+        ca.rules[:] = []
         post, raw = self.fetch()
         pops = flow.post_ops(self.log)[n0:]
         crt, _ = flow.cert_paths(self.root, cert)
@@ -805,9 +910,16 @@ class Run:
         # a registration without a binding records nothing)
         eab_id = self.cfg["eab"] and (self.cfg["eab"]["identifier"], self.cfg["eab"]["key_hex"])
         binding_changed = eab_id is not None and eab_id != self.bound[ep]
+        # same identifier and key, other MAC algorithm: whether that is "the external binding changed" is not
+        # settled by the property — the renewal is judged under both readings and must satisfy one of them
+        eab_alg = self.cfg["eab"] and self.cfg["eab"].get("alg")
+        alg_only = eab_id is not None and eab_id == self.bound[ep] and eab_alg != self.bound_alg[ep]
         contacts_changed = self.synced_contacts[ep] is not None and self.cfg["contacts"] != self.synced_contacts[ep]
         key_changed = self.synced_gen[ep] is not None and self.gen != self.synced_gen[ep]
-        judge_in = {"op": "c11_judge_sync", "url_stored_before": bool(url_before), "binding_changed": binding_changed,
+        # "a URL is stored for it": what the account file says, or what this harness knows (a renewal succeeded on
+        # this endpoint and its CA has not forgotten since): a record that got lost does not justify a new account
+        judge_in = {"op": "c11_judge_sync", "url_stored_before": bool(url_before) or self.registered[ep],
+                    "binding_changed": binding_changed,
                     "contacts_changed": contacts_changed, "key_changed": key_changed,
                     "reqs": [{k: r[k] for k in ("kind", "jwk", "signer", "outer_sig_ok", "inner_sig_ok", "answer")} for r in reqs],
                     "success": success,
@@ -815,8 +927,10 @@ class Run:
                     "ca_key_is_current": bool(held) and not held.get("forgotten") and cur_jwk is not None and held.get("jwk") == cur_jwk}
         # black-box clauses on top of the Lean judge
         py = []
-        if not success:
+        if not success and not fired:
             py.append("the renewal failed against a conforming CA: %s" % status)
+        if rules and not pops:
+            py.append("the renewal attempt did not end (no post-operation record) with the faults %s" % (rules,))
         n_up = sum(1 for r in reqs if r["kind"] == "accountUpdate")
         n_kc = sum(1 for r in reqs if r["kind"] == "keyChange")
         if n_up > 1 or n_kc > 1:
@@ -852,19 +966,25 @@ class Run:
         for r in reqs:
             if r["kind"] == "newAccount" and r["answer"] == "ok" and eab_id is not None:
                 self.bound[ep] = eab_id
+                self.bound_alg[ep] = eab_alg
         if success:
             self.synced_contacts[ep] = list(self.cfg["contacts"])
             self.synced_gen[ep] = self.gen
-        self.edited = False
+            self.registered[ep] = True
+        if rules:
+            nontrivial = True
+        self.edited = self.edited and not success
         self.obs.append({"kind": "renew", "step": idx, "cert": cert, "ep": ep, "judge_in": judge_in, "py": py,
+                         "judge_alt": dict(judge_in, binding_changed=True) if alg_only else None,
                          "status": status, "rc": rc, "nontrivial": nontrivial, "raw": raw, "fetched": post,
+                         "faults": {"asked": rules, "fired": fired} if rules else None,
                          "summary": {"url_before": url_before, "url_after": url_after,
                                      "ca_contacts": ca_contacts, "configured_contacts": want_contacts,
                                      "ca_alg": held and held.get("alg"), "current_alg": cur and cur["alg"],
                                      "account_requests": [{k: r[k] for k in ("kind", "signer", "alg", "answer", "outer_sig_ok", "inner_sig_ok", "status", "problem")}
                                                           for r in reqs if r["kind"] != "other" or r["answer"] != "ok"],
                                      "n_requests": len(reqs), "stderr_tail": "" if success else err[-600:]}})
-        return success
+        return success or bool(fired)
 
     def restart(self, idx):
         self.write_cfg()
@@ -901,7 +1021,7 @@ class Run:
         self.cas = {}
         try:
             for e in self.eps:
-                ca = mockca.MockCA(self.helper)
+                ca = mockca.MockCA(self.helper, opts=self.h.get("ca_opts"))
                 ca.start()
                 self.cas[e] = ca
             os.makedirs(self.root, exist_ok=True)
@@ -922,14 +1042,21 @@ class Run:
                 elif do == "eab":
                     self.cfg["eab"] = copy.deepcopy(st["value"])
                     self.edited = True
+                elif do == "alg":
+                    self.explicit_alg = bool(st["explicit"])
+                    self.edited = True
+                elif do == "layout":
+                    self.layout = LAYOUTS[st["value"]]
+                    self.edited = True
                 elif do == "forget":
                     for a in self.cas[st["ep"]].accounts.values():
                         a["forgotten"] = True
+                    self.registered[st["ep"]] = False
                     self.edited = True
                 elif do == "restart":
                     ok = self.restart(i)
                 elif do == "renew":
-                    ok = self.renew(i, st["cert"])
+                    ok = self.renew(i, st["cert"], st.get("rules"))
                 if not ok:
                     break   # the first failure of a history is what gets reported
         except Exception as ex:
@@ -946,7 +1073,10 @@ class Run:
 
 
 def hist_canon(h):
-    return {"layout": h["layout"], "init": h["init"], "steps": h["steps"]}
+    c = {"layout": h["layout"], "init": h["init"], "steps": h["steps"]}
+    if h.get("ca_opts"):
+        c["ca_opts"] = h["ca_opts"]
+    return c
 
 
 def run_histories(ctx, root, hists, tag="B"):
@@ -957,13 +1087,18 @@ def run_histories(ctx, root, hists, tag="B"):
             if o["judge_in"] is not None:
                 jin.append(o["judge_in"])
                 where.append(o)
+            if o.get("judge_alt") is not None:
+                jin.append(o["judge_alt"])
+                where.append(("alt", o))
             # every account file the daemon wrote goes through the model decoder too
             if o.get("raw") is not None and isinstance(o.get("fetched"), dict) and "dump" in o["fetched"]:
                 jin.append({"op": "c11_decode", "hex": o["raw"].hex()})
                 where.append(("decode", o))
     verdicts = vlib.model(jin) if jin else []
     for w, v in zip(where, verdicts):
-        if isinstance(w, tuple):
+        if isinstance(w, tuple) and w[0] == "alt":
+            w[1]["verdict_alt"] = v
+        elif isinstance(w, tuple):
             o = w[1]
             ctx.traces += 1
             ctx.count(tag + ":daemon-written-file-decoded")
@@ -978,6 +1113,14 @@ def run_histories(ctx, root, hists, tag="B"):
         ctx.count(tag + ":history-len:%d" % len(h["steps"]))
         for st in h["steps"]:
             ctx.count(tag + ":step:" + st["do"])
+            if st["do"] == "key" or st is h["steps"][0]:
+                v = st["value"] if st["do"] == "key" else h["init"]["key_type"]
+                ctx.count(tag + ":key-line:" + ("absent" if v is None else "canonical" if v == norm_kt(v) else "other-spelling"))
+        if h.get("ca_opts"):
+            ctx.count(tag + ":ca:" + str(h["ca_opts"].get("account_body")) + ("" if h["ca_opts"].get("orders_url", True) else ",no-orders"))
+        for o in r.obs:
+            for f in (o.get("faults") or {}).get("fired", []):
+                ctx.count(tag + ":" + str(f) + ":fired")
         for e in r.errors:
             ctx.count(tag + ":harness-error")
             ctx.broke("harness", e, {"part": "B", "history": hist_canon(h)})
@@ -997,6 +1140,9 @@ def run_histories(ctx, root, hists, tag="B"):
                 continue
             v = o.get("verdict") or {}
             ji = o["judge_in"]
+            if not v.get("holds") and (o.get("verdict_alt") or {}).get("holds"):
+                v, ji = o["verdict_alt"], o["judge_alt"]
+                ctx.count(tag + ":renewal:binding-algorithm-only-read-as-changed")
             ctx.case({"h": hist_canon(h), "step": o["step"]}, nontrivial=o["nontrivial"])
             ctx.traces += 1
             ctx.count(tag + ":renewal:" + ("ok" if ji["success"] else "FAILED"))
@@ -1051,8 +1197,14 @@ def describe(h):
             out.append("binding:=%s" % (s["value"]["identifier"] if s["value"] else "none"))
         elif d == "forget":
             out.append("CA %s forgets" % s["ep"])
+        elif d == "alg":
+            out.append("signature_algorithm line %s" % ("added" if s["explicit"] else "removed"))
+        elif d == "layout":
+            out.append("certificates:=%s" % s["value"])
         else:
             out.append(d)
+        if s.get("rules"):
+            out[-1] += " [faults: %s]" % ", ".join(r["kind"] for r in s["rules"])
     return "[%s | start: contacts=%s key=%s binding=%s | %s]" % (
         h["layout"], ",".join(h["init"]["contacts"]), h["init"]["key_type"],
         h["init"]["eab"]["identifier"] if h["init"]["eab"] else "none", "; ".join(out))
